@@ -17,8 +17,9 @@ from .axis import _enumerated
 
 
 class FakeLabel(object):
-    def __init__(self, text):
-        self.text, self.rotation, self.fontsize = text, 0, 10
+    def __init__(self, text, rotation=0):
+        # the plot may have drawn its tick labels with a rotation of its own (the -x no bar chart uses 90)
+        self.text, self.rotation, self.fontsize = text, rotation, 10
 
     def set_rotation(self, r): self.rotation = r
     def set_fontsize(self, s): self.fontsize = s
@@ -30,8 +31,8 @@ class FakeAxes(object):
         self.s = {"xlabel": "auto-x", "ylabel": "auto-y", "title": "auto-title", "xlabel_fs": 10, "ylabel_fs": 10, "title_fs": 10,
                   "aspect": None, "grid": None, "xticks": None, "yticks": None, "xticklabels_text": None, "yticklabels_text": None,
                   "xlim": None, "ylim": None, "xscale": "linear", "yscale": "linear"}
-        self.xl = [FakeLabel("1"), FakeLabel("2"), FakeLabel("3")]
-        self.yl = [FakeLabel("a"), FakeLabel("b")]
+        self.xl = [FakeLabel("1", 90), FakeLabel("2", 90), FakeLabel("3", 90)]
+        self.yl = [FakeLabel("a", 15), FakeLabel("b", 15)]
 
     def _lab(self, which, text, kw):
         if text is not None:
@@ -130,6 +131,9 @@ OPTS = {
     "tickfs": ({"tick_font_size": 5}, lambda a, p, ax: _all_fs(ax.xl, 5) and _all_fs(ax.yl, 5)),
     "xrot": ({"xrot": 45.0}, lambda a, p, ax: _all_rot(ax.xl, 45.0)),
     "yrot": ({"yrot": 30.0}, lambda a, p, ax: _all_rot(ax.yl, 30.0)),
+    "xrot=0": ({"xrot": 0.0}, lambda a, p, ax: _all_rot(ax.xl, 0.0)),
+    "yrot=0": ({"yrot": 0.0}, lambda a, p, ax: _all_rot(ax.yl, 0.0)),
+    "no-rotation-option": ({}, lambda a, p, ax: _all_rot(ax.xl, 90) and _all_rot(ax.yl, 15)),
     "aspect": ({"aspect": 2.0}, lambda a, p, ax: a["aspect"] == 2.0),
     "grid-default": ({}, lambda a, p, ax: a["grid"] is not None),
     "nogrid": ({"grid": False}, lambda a, p, ax: a["grid"] is None),
@@ -158,7 +162,8 @@ OPTS = {
     "legfs=0": ({"legfs": 0}, lambda a, p, ax: p["legend"] is None),
     "legloc": ({"leg_loc": "upper left"}, lambda a, p, ax: p["legend"] is not None and p["legend"].get("loc") == "upper left"),
 }
-CONFLICT = [{"grid-default", "nogrid"}, {"nogrid", "gs"}, {"nogrid", "gc"}, {"nogrid", "gw"}, {"legfs", "legfs=0"}, {"legfs=0", "legloc"},
+CONFLICT = [{"xrot", "xrot=0"}, {"yrot", "yrot=0"}, {"no-rotation-option", "xrot"}, {"no-rotation-option", "yrot"},
+            {"no-rotation-option", "xrot=0"}, {"no-rotation-option", "yrot=0"}, {"grid-default", "nogrid"}, {"nogrid", "gs"}, {"nogrid", "gc"}, {"nogrid", "gw"}, {"legfs", "legfs=0"}, {"legfs=0", "legloc"},
             {"left", "left=0"}, {"bottom", "bottom=0"}, {"nomargin", "left"}, {"nomargin", "right"}, {"nomargin", "top"}, {"nomargin", "bottom"},
             {"nomargin", "left=0"}, {"nomargin", "bottom=0"}]
 
